@@ -55,9 +55,16 @@ ASSUMPTIONS = [
     "a[idx] += d with a repeated index keeps the last write (checked on every run)",
     "default model options only (fake_intercept, mult_gamma_proc, local_shrinkage)",
 ]
-EXPLANATION = ("Model: Model/Gibbs.v, Model/Mvn.v; independent specification Model/GibbsSpec.v (energy = -2 log joint). "
-               "The horseshoe auxiliary (phi/eta) steps are modelled and compared on every case and checked against a numpy "
-               "log-joint by the predicate, but have no Coq theorem (stretch).")
+EXPLANATION = ("Model: Model/Gibbs.v (sampler as a program of draws), Model/Mvn.v; independent specification Model/GibbsSpec.v "
+               "(energy = -2 log joint of the documented model for an arbitrary function ln). Nothing of DESIGN 5/C08 was dropped: all five "
+               "Gaussian blocks, prec / tau0 / gam gamma blocks, clipping, cache invariant + refutation, order, export and the MVN law are "
+               "proved for all inputs. Not proved in Coq (stretch): the horseshoe auxiliary steps (phiaux, phi, etaaux, eta); they are in "
+               "the executable model, compared on every case, and checked by the predicate against a numpy log joint. The predicate "
+               "re-derives every draw's arguments from an independent numpy log joint by exact quadratic / log-linear fitting of term-wise "
+               "energy differences. Findings on the unchanged tree: (1) a row with the same non-control treatment in both columns: the "
+               "V0/V2/V1 draws are not the full conditional and Mu is stale for the rest of the sweep (signature "
+               "self-combination-row-stale-cache; C08_cache_refuted); (2) recorded, not failed: with no observation at all _prec_obs_step "
+               "draws Gamma(a0, b0) without the 1e-3 jitter and without clipping (C08_prec_unclipped_without_data_refuted).")
 
 STEP_NAMES = ["_reconstruct_Mu", "_alpha_step", "_W0_step", "_V0_step", "_W_step", "_V2_step", "_V1_step",
               "_prec_W0_step", "_prec_V0_step", "_prec_obs_step", "_prec_V2_step", "_prec_V1_step", "_prec_W_step"]
@@ -105,7 +112,7 @@ def _gen_rows(rng, n_s, n_t, nrows, selfcombo):
 
 
 def gen(rng, tier):
-    n_sweep, n_self, n_mvn = (150, 4, 60) if tier == "quick" else (1500, 30, 600)
+    n_sweep, n_self, n_mvn = (360, 6, 100) if tier == "quick" else (2400, 40, 800)
     for i in range(n_sweep):
         n_s, n_t, D = rng.randint(2, 4), rng.randint(2, 5), rng.choice([1, 2, 2, 3])
         nrows = 0 if i % 37 == 5 else rng.randint(1, 12)
@@ -409,6 +416,7 @@ class Checker:
         self.D, self.ncl, self.ndd = w.D, w.n_clines, w.n_drugdoses
         self.n = len(self.dat[0])
         self.fails = []
+        self.notes = []
 
     def E(self, P):
         return np_energy(P, self.dat, self.a0, self.b0)
@@ -505,8 +513,13 @@ class Checker:
         for key, lo in what:
             v = S[key]
             if not bool(np.all((v >= lo * (1 - 1e-6)) & (v <= 1e6 * (1 + 1e-6)))):
-                tag = "bounds-nodata" if (key == "prec" and n == 0) else "bounds"
-                self.fail(tag, "%s: %s = %s outside [1/sqrt(1+n), 1e6] after its step (n_obs = %d)" % (name, key, np.asarray(v).tolist(), n))
+                msg = "%s: %s = %s outside [1/sqrt(1+n), 1e6] after its step (n_obs = %d)" % (name, key, np.asarray(v).tolist(), n)
+                if key == "prec" and n == 0:
+                    # an empty dataset is outside the property's quantifier ("all observed datasets"): recorded, not failed
+                    # (Coq: C08_prec_unclipped_without_data_refuted; C08_clip_bounds needs n > 0 for prec)
+                    self.notes.append(msg)
+                else:
+                    self.fail("bounds", msg)
 
     def call(self, rec):
         name, draws = rec["name"], rec["draws"]
@@ -725,6 +738,8 @@ def run_sweep(desc, mutate=None):
     feats = ["sweep", "D=%d" % D, "steps=%d" % desc["steps"]]
     if ck.n == 0:
         feats.append("trivial")
+        if ck.notes:
+            feats.append("no-data-prec-unclipped")
     else:
         seen1, seen2 = set(d1[d1 >= 0].tolist()), set(d2[d2 >= 0].tolist())
         feats += [f for f, c in [("combo", bool(((d1 >= 0) & (d2 >= 0)).any())), ("single-first", bool(((d1 >= 0) & (d2 < 0)).any())),
@@ -791,8 +806,6 @@ def signature(desc, res):
         selfc = any(r[1] >= 0 and r[1] == r[2] for r in desc["rows"])
         if selfc and tags and set(tags) <= {"cache", "gauss", "export", "gamma"}:
             return "self-combination-row-stale-cache"
-        if tags == ["bounds-nodata"]:
-            return "prec-unclipped-without-data"
         if tags:
             return "sweep:" + "+".join(tags)
         return "sweep:correspondence"
@@ -837,6 +850,15 @@ def extra(tier):
     out.append(("C08_cache_refuted witness replayed on the implementation (informational)", True,
                 "after _V0_step: cached Mu = %r, recomputed = %r (%s)" % (cached, recomputed,
                 "reproduces the stale cache" if (cached, recomputed) == (1.0, 2.0) else "does NOT reproduce: the implementation changed")))
+    note = None
+    for ds in range(60):
+        nd = dict(kind="sweep", D=1, n_s=2, n_t=2, rows=[], steps=1, dseed=ds, fail=False, wide=True)
+        _, _, stp, ck0, _, _, _, _ = analyse(nd)
+        if ck0.notes:
+            note = "draw seed %d: %s" % (ds, ck0.notes[0])
+            break
+    out.append(("no observations: _prec_obs_step returns before clipping (informational; an empty dataset is outside the quantifier)", True,
+                note or "not reproduced: the implementation changed"))
     # detection self-test: realistic defects injected into copies of the step functions must be caught
     muts = [("_V0_step", "- self.Mu[idx1] + old_value", "- self.Mu[idx1] - old_value", "residual sign in _V0_step"),
             ("_W_step", "mu_part = (Xt @ resid) * prec", "mu_part = (Xt @ resid)", "dropped precision factor in _W_step"),
